@@ -13,11 +13,26 @@
                                    configuration of this semantics (used for the recorded findings).
    C15_search_sound                the bounded search of Conc/Eval.v only reports reachable stuck configurations.
    C15_recursive_read_refuted / C15_abba_refuted : the two shapes of the recorded findings are deadlocks of the model.
+   UNIVERSAL part (Conc/Footprint.v: the lock trace as a FUNCTION lock_trace of the operation and the world of the heap model, tied to
+   the implementation on every run by comparing it event by event with the traces hook H2 logs for every enumerated instance):
+   C15_no_deadlock_footprint_classes   for EVERY world satisfying Core (the structural invariant of C03), any number of threads, each
+                                   performing any sequence of calls of the classes with order_class = true (parent / element_name /
+                                   element_type / character_data / attribute_value / comment / iterator steps, remove_attribute /
+                                   set_comment / insert+remove_character_content_item, get_element_by_path / get_references_to /
+                                   root_element, ArxmlFile::version / filename / xml_standalone / model, item_name, is_identifiable,
+                                   get_sub_element, position, Element::model, file_membership, min_version, named_parent, xml_path,
+                                   set_attribute[_string], Element::serialize, set_character_data / remove_character_data of plain
+                                   character elements): no reachable configuration is stuck and every maximal execution finishes.
+                                   (Footprints are taken in the one world w: the classes are read-only or change attributes /
+                                   comments / character content only, never parent links, content element lists or file sets.)
+   C15_footprint_path_characterised    Element::path(): the criterion fails EXACTLY when the element is identifiable and has a parent
+                                   element (the recorded finding C15-upward-blocking: blocking read of the ancestor while the element's
+                                   own read lock is held).
    [P]artial tie: rank = depth in the tree for elements (parent before child), then models, then files, instantiated on the
    concrete lock graph of each scenario; the premise is evaluated by vm_compute on the traces produced by the implementation
    through hook H2 for the enumerated operation instances; parking_lot, real timeouts and fairness are modelled, not verified. *)
 From Coq Require Import List NArith Bool Arith.
-From AV Require Import Conc.RwLock Conc.Deadlock Conc.Eval Conc.EvalProofs.
+From AV Require Import Tree.Heap Tree.Inv Conc.RwLock Conc.Deadlock Conc.Eval Conc.EvalProofs Conc.Footprint Conc.FootprintProofs Conc.FootprintPath.
 Import ListNotations.
 Local Open Scope N_scope.
 
@@ -61,3 +76,21 @@ Theorem C15_abba_refuted :
     reachable (init [ [Acq true Wr 1; Acq true Wr 2; Rel 2; Rel 1];
                       [Acq true Wr 2; Acq true Wr 1; Rel 1; Rel 2] ]) c /\ stuck c.
 Proof. exact abba_deadlock. Qed.
+
+Theorem C15_no_deadlock_footprint_classes : forall cf fuel w (threads : list (list lop)),
+    Core w ->
+    Forall (Forall (fun o => order_class o = true)) threads ->
+    forall c, reachable (init (map (thread_trace cf fuel w) threads)) c ->
+              ~ stuck c /\ ((forall c', ~ step c c') -> all_finished c).
+Proof. exact no_deadlock_footprint_classes. Qed.
+
+Theorem C15_footprint_path_characterised : forall (cf : cfg) (w : world) (rank : lock -> N),
+    Core w -> mono w rank ->
+    forall (fuel : nat) (e : id),
+      order_ok rank (lock_trace cf (S fuel) (LPath e) w) = false <->
+      (exists (n : node) (p : id) (q : node),
+          w_nodes w e = Some n /\ identifiable cf w n = true /\ n_parent n = PElem p /\ w_nodes w p = Some q).
+Proof. exact footprint_path_order. Qed.
+
+Theorem C15_footprint_rank_exists : forall w, Core w -> exists rank, mono w rank.
+Proof. exact mono_rank_exists. Qed.
